@@ -121,7 +121,8 @@ def unfold(model, s, leaf_filter_keys=None):
                 for n in range(0, model.max_len - base_segs + 1):
                     t_str = c.replace("/**", "/*" * n)
                     for T in model.all_types(t_str):
-                        if T.keys and T.keys[-1] == leaf:
+                        # "a leaf type (one ending in the configured leaf key)": the leaf key of the type's OWN basetype
+                        if T.keys and T.keys[-1] == model.leaf_keys.get(model.basetype(T.name)):
                             typed.append((T, t_str))
             else:
                 ts = model.all_types(c)
